@@ -136,3 +136,17 @@ def pop_pairs(pop):
 
 def inds_pairs(inds):
     return [(tuple(float(x) for x in i.genome), float(i.fitness)) for i in inds]
+
+
+def is_env_crash(exc):
+    """did the exception originate inside a third-party library (cma, scipy, numpy, ...) rather than
+    in pyhms or in the harness?  Such crashes (e.g. an internal assertion of the cma package when it
+    is told non-finite values for a whole population) are environment failures: the run is skipped
+    and counted, it is neither a disagreement nor a violation."""
+    import traceback
+
+    tb = traceback.extract_tb(exc.__traceback__)
+    if not tb:
+        return False
+    last = tb[-1].filename
+    return "site-packages" in last and "/pyhms/" not in last
